@@ -78,6 +78,10 @@ type D struct {
 	MUID    harn.B
 	AtimeNs int `json:",omitempty"` // only ever non-zero on a value converted back from the library
 	MtimeNs int `json:",omitempty"`
+	// non-zero only on a value converted back from the library whose time lies
+	// outside [0, 2^32) seconds (the wire cannot carry it): Unix()>>32
+	AtimeX int64 `json:",omitempty"`
+	MtimeX int64 `json:",omitempty"`
 }
 
 // Msg is a neutral description of any 9P2000 message: a flat union.  Only
